@@ -61,6 +61,8 @@ Drop == \E n \in DOMAIN h.votes : Forge([h EXCEPT !.votes = Remove(h.votes, n)])
 Dup == \E n \in DOMAIN h.votes, twice \in BOOLEAN :
           /\ Len(h.votes) < MaxVotes
           /\ Forge([h EXCEPT !.votes = Append(h.votes, IF twice THEN h.votes[n] ELSE [h.votes[n] EXCEPT !.sb = 0])])
+\* a single voter repeats its own precommit k times (its signature aggregated k times) to reach the quorum alone
+Repeat == \E n \in DOMAIN h.votes, k \in 2..MaxVotes : Forge([h EXCEPT !.votes = [m \in 1..k |-> h.votes[n]]])
 \* add the vote a validator (online, offline, house) or a stranger produces with its own keys under the declared threshold
 Add == \E v \in 1..NV(F) + 1 :
           /\ Len(h.votes) < MaxVotes
@@ -74,6 +76,9 @@ AlterCred == \E n \in DOMAIN h.votes, what \in {"idx", "step", "seed", "foreign"
                      [] what = "step" -> [x EXCEPT !.cs = StepPrevote]
                      [] what = "seed" -> [x EXCEPT !.cd = 2]
                      [] OTHER         -> [x EXCEPT !.pb = what]])
+\* claim the voter's whole stake as weight
+InflateMax == \E n \in DOMAIN h.votes : /\ Member(F, h.votes[n].v) /\ h.votes[n].j < F.vals[h.votes[n].v].stake
+                                         /\ Forge([h EXCEPT !.votes[n].j = F.vals[h.votes[n].v].stake])
 Inflate == \E n \in DOMAIN h.votes : Forge([h EXCEPT !.votes[n].j = h.votes[n].j + 1])
 \* replay a signature made for another block / round / index, or leave the signature out
 Resign == \E n \in DOMAIN h.votes, what \in {"blk", "rnd", "idx", "none"} :
@@ -138,7 +143,7 @@ PropAlter == \E what \in {"idx", "step", "seed", "foreign", "corrupt"} :
                      [] what = "seed" -> [x EXCEPT !.cd = 2]
                      [] OTHER         -> [x EXCEPT !.pb = what]])
 
-Next == \/ Drop \/ Dup \/ Add \/ AlterCred \/ Inflate \/ Resign \/ ReplaySet \/ ResignSet \/ Reorder \/ CorruptAgg
+Next == \/ Drop \/ Dup \/ Repeat \/ Add \/ AlterCred \/ Inflate \/ InflateMax \/ Resign \/ ReplaySet \/ ResignSet \/ Reorder \/ CorruptAgg
         \/ DeclareV \/ DeclareP \/ SetVidx \/ SetPidx
         \/ SwapProposer \/ BadPriority \/ PropInflate \/ PropAlter
 Spec == Init /\ [][Next]_vars
